@@ -125,6 +125,21 @@ def clientLine (rs : RibSt) (cl : Cl.State) (ts : List Tok) : RibSt × Cl.State 
               true) with
             | some o => rs.monfail "c13" s!"operation {o.opId} has a terminal result but is still pending"
             | none => rs
+          -- C13 monitors (statement evaluated on the client's own results, against the log of what
+          -- the application queued): a result belongs to an operation that was queued, and no
+          -- operation completes twice
+          let queued := cl.accepted.map (·.1)
+          let rs := match obsRes.find? (fun o => !o.isNil && o.opId != 0 && !queued.contains o.opId &&
+              -- the one tolerated case (c13_violations_surface): a late RIB acknowledgement in FIB-ack mode
+              !(cl.fibMode && o.status == 3)) with
+            | some o => rs.monfail "c13" s!"a result (status {o.status}) was recorded for operation {o.opId}, which was never queued, instead of an error"
+            | none => rs
+          let rs := match obsRes.find? (fun o => terminalObs o && (obsRes.filter (fun o' => terminalObs o' && o'.opId == o.opId)).length > 1) with
+            | some o => rs.monfail "c13" s!"operation {o.opId} completed twice"
+            | none => rs
+          let rs := match obsRes.find? (fun o => !o.isNil && o.opId != 0 && o.details.isNone && terminal cl.fibMode (statusOfNum o.status)) with
+            | some o => rs.monfail "c13" s!"the terminal result of operation {o.opId} does not carry the operation's type and key"
+            | none => rs
           if rs.diverged then (rs, cl) else
           let mIds := cl.pendOps.map (·.1)
           let rs := if permEq mIds ids then rs else rs.diff "cl.pend" s!"model={mIds} impl={ids}"
@@ -136,6 +151,15 @@ def clientLine (rs : RibSt) (cl : Cl.State) (ts : List Tok) : RibSt × Cl.State 
             else rs.diff "cl.results" s!"model has {cl.results.length} results, impl {obsRes.length} (or one differs)"
           (rs, cl)
         | _, _, _, _, _, _, _ => (bad rs, cl)
+      | _ => (bad rs, cl)
+    else if c = "cl.after" then
+      -- C13 monitor on the client's own state right after AwaitConverged returned
+      match args with
+      | [o, np, ne] =>
+        let rs := rs.covr "cl.after"
+        if tokStr o == "converged" ∧ (natOf np != some 0 ∨ natOf ne != some 0) then
+          (rs.monfail "c13" s!"AwaitConverged returned success although {tokStr np} operation(s) were pending and {tokStr ne} error(s) were recorded", cl)
+        else (rs, cl)
       | _ => (bad rs, cl)
     else if c = "cl.await" then
       match afterArrow args with
